@@ -279,6 +279,71 @@ def run(P, tier="quick"):
             else:
                 R.violated(Finding("R33", PROPS, file, name, "both-ends", "range check tests only the %s end(s) of the range" %
                                    "/".join(sorted(str(e) for e in ends)), 0))
+    # (iv) RANGE-INTERSECT: where a range end is combined with the same end of another range, the usable range is the
+    # intersection: lower ends combine by maximum, upper ends by minimum
+    def combo(e):
+        """('max'|'min', a, b) for a conditional expression selecting the larger / smaller operand"""
+        e = e.strip()
+        if e.k != "ConditionalOperator":
+            return None
+        c, t, f_ = e.kids[0].strip(), e.kids[1].strip(), e.kids[2].strip()
+        if c.k != "BinaryOperator" or c.op not in ("<", "<=", ">", ">="):
+            return None
+        a, b = c.kids[0].strip(), c.kids[1].strip()
+        if t.text() == a.text() and f_.text() == b.text():
+            return ("max" if c.op in (">", ">=") else "min", a, b)
+        if t.text() == b.text() and f_.text() == a.text():
+            return ("min" if c.op in (">", ">=") else "max", a, b)
+        return None
+    nint = 0
+    for f in P.lib_functions():
+        if f.body is None:
+            continue
+        cands = []
+        for n in f.walk():
+            if n.k == "IfStmt":
+                kids = [x for x in n.kids if x is not None]
+                c = kids[0].strip()
+                if len(kids) == 2 and c.k == "BinaryOperator" and c.op in ("<", "<=", ">", ">="):
+                    body = kids[1].kids if kids[1].k == "CompoundStmt" else [kids[1]]
+                    body = [x for x in body if x is not None]
+                    if len(body) == 1 and body[0].strip().k == "BinaryOperator" and body[0].strip().op == "=":
+                        asg = body[0].strip()
+                        a, b = c.kids[0].strip(), c.kids[1].strip()
+                        l, r = asg.kids[0].strip(), asg.kids[1].strip()
+                        # if (a OP b) b = a   /   if (a OP b) a = b
+                        if l.text() == b.text() and r.text() == a.text():
+                            kind = "max" if c.op in (">", ">=") else "min"
+                            cands.append((n, kind, a, b, l))
+                        elif l.text() == a.text() and r.text() == b.text():
+                            kind = "min" if c.op in (">", ">=") else "max"
+                            cands.append((n, kind, a, b, l))
+            elif n.k == "BinaryOperator" and n.op == "=":
+                cb = combo(n.kids[1])
+                if cb is not None:
+                    cands.append((n, cb[0], cb[1], cb[2], n.kids[0].strip()))
+        for (n, kind, a, b, tgt) in cands:
+            cls = [x for x in (EC.expr(f, a), EC.expr(f, b)) if x in ("MIN", "MAX")]
+            if not cls or len(set(cls)) > 1:
+                continue
+            if "double" not in (a.ctype or "") and "double" not in (b.ctype or ""):
+                continue
+            nint += 1
+            i = per_func[("int", f.key())] = per_func.get(("int", f.key()), 0) + 1
+            anchor = "intersect%d:%s" % (i, "lower" if cls[0] == "MIN" else "upper")
+            key = "R33|%s|%s|%s" % (f.file, f.name, anchor)
+            want = "max" if cls[0] == "MIN" else "min"
+            if kind == want:
+                R.ok(key, PROPS)
+            else:
+                R.violated(Finding("R33", PROPS, f.file, f.name, anchor,
+                                   "`%s` combines the %s ends of two frequency ranges by taking the %s: the usable range is the "
+                                   "intersection, so %s ends combine by %s (otherwise frequencies outside one of the ranges are accepted)" %
+                                   (n.text()[:90], "lower" if cls[0] == "MIN" else "upper", "smaller" if kind == "min" else "larger",
+                                    "lower" if cls[0] == "MIN" else "upper", "maximum" if want == "max" else "minimum"), n.line))
+    R.counts["range_intersections"] = nint
+    if nint < 2:
+        raise AnalysisBroken("R33: %d range-intersection sites found (_vnacal_get_parameter_frange has 2)" % nint)
     R.counts["slack_bounds"] = nsl
     R.counts["comparisons"] = ncmp
     R.check_floor()
